@@ -225,12 +225,12 @@ OuterLoop:
 					if foundDot {
 						prec = prec*10 + int(format[i]-'0')
 						if prec >= 100 {
-							return "", errors.New("length too long")
+							return "", errors.New("precision too long")
 						}
 					} else {
 						length = length*10 + int(format[i]-'0')
 						if length >= 100 {
-							return "", errors.New("precision too long")
+							return "", errors.New("length too long")
 						}
 					}
 				case '+', '-', '#', ' ':
